@@ -271,6 +271,15 @@ open Tcell.Gen.LockFacts in
 /-- the clean list is not vacuous on the current tree -/
 example : cleanFields ≠ [] := by decide +kernel
 
+open Tcell.Gen.LockFacts in
+/-- `Conforms` is satisfiable on the regenerated facts: the path `Lock; t.style = …; Unlock` of SetStyle (tscreen.go:687) -/
+example : Conforms facts (entryNames.idxOf "tscreen/SetStyle")
+    [.lock, .wr (fieldNames.idxOf "tscreen/style"), .unlock] := by
+  intro a ha
+  simp only [accessesOf, List.mem_singleton] at ha
+  subst ha
+  exact ⟨false, by decide +kernel⟩
+
 /-! ## Show reaches the tty as one contiguous block -/
 
 def BInv (c : Cfg) : Prop :=
